@@ -1049,6 +1049,8 @@ def small_rewrites(t):
             if n == "builtins.sorted" and t[2] and head(strip(t[2][0])) == "call" and strip(strip(t[2][0])[1]) in (("glob", "builtins.list"), ("glob", "builtins.tuple")) \
                     and len(strip(t[2][0])[2]) == 1 and not strip(t[2][0])[3]:
                 return ("call", t[1], (strip(t[2][0])[2][0],) + tuple(t[2][1:]), t[3])      # sorted(list(X)) == sorted(X)
+            if n == "itertools.chain" and len(t[2]) == 1 and head(t[2][0]) == "star" and not t[3]:
+                return ("call", ("glob", "itertools.chain.from_iterable"), (t[2][0][1],), ())      # chain(*xs) == chain.from_iterable(xs)
             if n in ("builtins.all", "builtins.any") and len(t[2]) == 1 and not t[3]:
                 # all(f(w) for w in (a, b, c))  ==  f(a) and f(b) and f(c)   (a comprehension over a short tuple / list display)
                 c_ = strip(t[2][0])
